@@ -84,35 +84,36 @@ def _tabulate_dispatch(f, ex, target):
     if not start:
         return {"?": list(range(256))}
     for v in range(256):
-        b, res, steps = start[0], None, 0
-        while steps < 200:
-            steps += 1
+        # follow the branches that depend on the scrutinee; a branch on anything else (a debug switch) is explored both ways
+        found, seen, stack = set(), set(), [start[0]]
+        while stack:
+            b = stack.pop()
+            if b in seen or len(seen) > 400:
+                continue
+            seen.add(b)
             t = f.blocks[b]["term"]
             if t["k"] == "switch":
                 x = _ev(ex.operand(t["discr"]), atom, v)
                 if x is None:
-                    res = "?"
-                    break
+                    stack.extend([tb for _, tb in t["targets"]] + [t["otherwise"]])
+                    continue
                 nxt = t["otherwise"]
                 for val, tb in t["targets"]:
                     if val == x:
                         nxt = tb
-                b = nxt
+                stack.append(nxt)
             elif t["k"] == "goto":
-                b = t["t"]
+                stack.append(t["t"])
             elif t["k"] == "call":
                 if not t.get("indirect") and t["callee"] == target:
-                    res = (int(t["gargs"][0]), int(t["gargs"][1]))
-                    break
-                if t.get("t") is None:
-                    break
-                b = t["t"]
+                    found.add((int(t["gargs"][0]), int(t["gargs"][1])))
+                    continue
+                if t.get("t") is not None:
+                    stack.append(t["t"])
             elif t["k"] in ("drop", "assert"):
-                b = t.get("t")
-                if b is None:
-                    break
-            else:
-                break
+                if t.get("t") is not None:
+                    stack.append(t["t"])
+        res = None if not found else (next(iter(found)) if len(found) == 1 else "?")
         out.setdefault(res, []).append(v)
     return out
 
